@@ -78,6 +78,12 @@ class _ModuleAddComponentBase:
                     and not component.is_modification() and not (component.is_starter() and old.self._starter is None),
                     old.self._carrier_protein is None),
     }
+    ensures["a-second-carrier-protein-accepted-on-a-promised-look-ahead-books-exactly-the-two-promised-domains"] = \
+        lambda self, component, lookahead, old: implies(
+            not outside_modules(component) and component.is_carrier_protein() and not component.is_loader()
+            and not component.is_modification() and not (component.is_starter() and old.self._starter is None)
+            and old.self._carrier_protein is not None and promised_by_lookahead(lookahead),
+            self._unambiguous_accept == 2 and len(self._others) == len(old.self._others) + 1)
     # C14-F2 (open): the code deliberately accepts a second carrier protein when the look-ahead shows the
     # documented pair of modification domains; outside that class the clause is proved
     known = {"C14-F2": (lambda self, component, lookahead: self._carrier_protein is not None
@@ -101,7 +107,9 @@ def _variant(starter, carrier, end):
     attrs["__doc__"] = _ModuleAddComponentBase.__doc__
     attrs["__module__"] = __name__
     attrs["params"] = {"self": _module(starter, carrier, end), "component": COMP,
-                       "lookahead": OneOf(ListOf(COMP, 0, 0), ListOf(COMP, 2, 2))}
+                       # no look-ahead, exactly the promised pair, or more domains following it (a module reloaded
+                       # from its saved form is rebuilt with the whole remainder as look-ahead)
+                       "lookahead": OneOf(ListOf(COMP, 0, 0), ListOf(COMP, 2, 2), ListOf(COMP, 3, 3))}
     attrs["variant"] = not (starter == "none" and not carrier and not end)
     return contract(f"{FILE}::Module.add_component", props=["C14"])(type(name, (), attrs))
 
